@@ -7,6 +7,7 @@
 //!
 //! usage: c01t_driver <out.ndjson> <histories> <ops-per-history> [ironwood]     seeded random histories
 //!        c01t_driver <out.ndjson> scenarios                                     the scenario library
+//!        c01t_driver <out.ndjson> conflict-scenario                             probe of a suspected defect (not registered)
 use h_wallet::chain::{Pool, TxReq};
 use h_wallet::coins::{CoinWorld, class};
 use h_wallet::run::Run;
@@ -295,6 +296,28 @@ fn scenarios(out: &mut NdjsonWriter) {
     }
 }
 
+/// NOT part of the registered run (see notes/c01-coins-report.md, "conflicting spenders"): the minimal deterministic
+/// history of the suspected defect - two conflicting spenders of a coin are both stored before the coin arrives; the
+/// wallet links only the one mined first; a reorg replaces it by the other one, whose mining the wallet learns from a
+/// UTXO report of its change; once the orphaned spender has expired the coin counts again although the wallet has the
+/// full data of a mined transaction spending it.  Validated with CHECK_KNOWN_SPENDERS=1 the trace is rejected there.
+fn conflict_scenario(out: &mut NdjsonWriter) {
+    let mut t = T::new(out, 5900, false, json!("tK conflicting spenders, reorg"));
+    t.prelude(8); // blocks 1..8 scanned, tip 8
+    let c1 = t.cw.new_utxo(&mut t.r.rng, 1, 100_000);
+    let e12 = t.r.abs(12);
+    let s1 = t.cw.new_tx(&mut t.r.rng, &[c1], 0, &[(1, 60_000), (0, 39_000)], 0);
+    let s2 = t.cw.new_tx(&mut t.r.rng, &[c1], 0, &[(2, 70_000), (0, 29_000)], e12);
+    let c2 = t.cw.txs[&s1].outs[0].0;
+    t.fulltx(s1, None);
+    t.fulltx(s2, Some(t.r.abs(7)));
+    t.utxo(c1, Some(t.r.abs(5)));
+    t.trunc(t.r.abs(6), true); // S2 orphaned
+    t.walk(3); // tip 9 on the new chain
+    t.utxo(c2, Some(t.r.abs(8))); // the new chain mined S1: its change is reported as a UTXO at height 8
+    t.walk(5); // tip 14: past S2's expiry
+}
+
 // -------------------------------------------------------------------------------------------
 // random histories
 
@@ -552,6 +575,8 @@ fn main() {
     let mut out = NdjsonWriter::create(&args[1]);
     if args[2] == "scenarios" {
         scenarios(&mut out);
+    } else if args[2] == "conflict-scenario" {
+        conflict_scenario(&mut out);
     } else {
         let histories: usize = args[2].parse().unwrap();
         let ops: usize = args[3].parse().unwrap();
